@@ -513,6 +513,14 @@ impl World {
             if p_ == "C01" && c == "overlap" {
                 // two operations hold `&mut T` to the same value at once: aliased mutable access (a data race on real threads)
                 self.note("C14", "aliased-mutable-access", Some(obj), Some(op), d.clone());
+                // the operation that was intruded upon was promised exclusive access as well
+                let victim_kind = self.with(|i| i.ops.iter().enumerate().filter(|(aid, a)| *aid != op && a.obj == obj && a.start != 0 && !a.ended() && !a.cancelled).map(|(_, a)| a.kind).next());
+                match victim_kind {
+                    Some(Kind::Sync) => self.note("C04", "not-exclusive", Some(obj), Some(op), d.clone()),
+                    Some(Kind::TrySync) => self.note("C09", "not-exclusive", Some(obj), Some(op), d.clone()),
+                    Some(Kind::PipeItem) => self.note("C11", "not-exclusive", Some(obj), Some(op), d.clone()),
+                    _ => {}
+                }
             }
             if p_ == "C01" || p_ == "C02" {
                 let extra = match kind {
